@@ -1359,6 +1359,12 @@ def generate_loopy(result: Array | AbstractResultWithNamedArrays | dict[str, Arr
         {name: output_to_untagged_output[output]
          for name, output in outputs._data.items()},
         tags=outputs.tags)
+    if any(untagged_output is not output
+           for output, untagged_output in output_to_untagged_output.items()):
+        # an output without its ImplStored tag may be equal to another array
+        # of the graph that never had the tag
+        from pytato.transform import deduplicate
+        outputs = deduplicate(outputs)
 
     compute_order = preproc_result.compute_order
 
